@@ -173,7 +173,10 @@ fn setup(pos: Pos, r: usize, try_section: bool, challenge_then_silent: bool, par
     let call = |entry: Entry| Call { entry, ip: SERVER_IP, port: Some(port), default_port: port, timeout: ts(r) };
     match pos {
         Pos::ValveInfo | Pos::ValvePlayers | Pos::ValveRules => {
-            let st = ValveState::generate(t, false, false, Some(440), 8, 8);
+            // one case in four (where every section is required) goes through The Ship's own module, which
+            // requires all three sections by itself
+            let ship = !try_section && t.draw(CFG, 4) == 0;
+            let st = if ship { ValveState::generate(t, true, false, Some(2400), 8, 8) } else { ValveState::generate(t, false, false, Some(440), 8, 8) };
             let k = match pos {
                 Pos::ValveInfo => 0,
                 Pos::ValvePlayers => 1,
@@ -184,7 +187,7 @@ fn setup(pos: Pos, r: usize, try_section: bool, challenge_then_silent: bool, par
             let rounds = t.draw(CFG, 2) as u8;
             let kind_byte = [0x54u8, 0x55, 0x56][k];
             Setup {
-                call: call(Entry::Valve { engine: Engine::new(440), gather: Some(gs) }),
+                call: if ship { call(Entry::TheShip { with_timeout: true }) } else { call(Entry::Valve { engine: Engine::new(440), gather: Some(gs) }) },
                 make: Box::new(move |v| {
                     let mut s = ValveServer::new(st.clone());
                     s.outcomes[k] = to_vm(v);
